@@ -25,10 +25,17 @@ META = {
                   "the theorems as the hypothesis Reflects, validated exhaustively per scalar value.",
 }
 
-TABLES = ["HTML_ESCAPE_TABLE", "HTML_NEEDS_ESCAPING", "HTML_ESCAPE_FILTER_SUB", "SAFE_PRODUCER_SITES", "FILTER_NAMES"]
+TABLES = ["HTML_ESCAPE_TABLE", "HTML_NEEDS_ESCAPING", "HTML_ESCAPE_FILTER_SUB", "SAFE_PRODUCER_SITES", "FILTER_NAMES",
+          "AUTOESCAPE_BY_NAME", "AUTOESCAPE_SHAPE", "PYCOMPAT_METHODS"]
 METAS = set("<>\"'")
 LOCAL_CLASS = {"op~": "modelled", "op+": "modelled", "op*": "modelled", "op[:]": "modelled", "op[]": "modelled",
-               "loop.cycle": "forward"}
+               "loop.cycle": "select", "str.replace#count": "normal", "str.splitlines#keepends": "normal"}
+
+
+def arg_key_leaves(enc):
+    """map keys of an argument encoding (`M(<cps>=…)`) as unmarked strings"""
+    import re
+    return [(False, dec(k)) for k in re.findall(r"[(;]([0-9.]+|-)=", enc)]
 
 
 def dec(cps):
@@ -80,7 +87,8 @@ def run(r):
         cases.append((cj, json.loads(cj), res))
     # ---- model runs
     names = st["items"].get("FILTER_NAMES") or {"builtin": [], "contrib": [], "functions": []}
-    all_names = list(names["builtin"]) + list(names["contrib"]) + list(names["functions"])
+    all_names = (list(names["builtin"]) + list(names["contrib"]) + list(names["functions"])
+                 + list(st["items"].get("PYCOMPAT_METHODS") or []))
     inp = [f"?class\t{n}" for n in all_names]
     for i, (_, c, _) in enumerate(cases):
         if c.get("model"):
@@ -88,8 +96,10 @@ def run(r):
         elif c.get("prog"):
             inp.append(f"{i}\tPROG\t{c['strict']}\t{c['prog']}\t{c['ctxsx']}")
     mlines = r.driver("drive_c02", "\n".join(inp) + "\n")
-    if mlines is None:
-        return
+    no_model = mlines is None   # (already recorded as broken) — the engine-only oracles still run
+    if no_model:
+        mlines = []
+        r.model_disagreement = lambda *a, **k: None
     classes, model = dict(LOCAL_CLASS), {}
     for ml in mlines:
         f = ml.split("\t")
@@ -97,11 +107,12 @@ def run(r):
             classes[f[1]] = f[2]
         else:
             model[int(f[0])] = f[1:]
-    for n in all_names:
+    for n in ([] if no_model else all_names):
         if classes.get(n, "unclassified") == "unclassified":
             r.broken.append(f"filter/function `{n}` is registered in /repo but has no safety class in MJ/Model/Safe.lean")
     ok_by_name = collections.Counter()
     seen_names = set()
+    not_registered = set()
     for i, (cj, c, res) in enumerate(cases):
         s = c["s"]
         rf = res.split("\t")
@@ -116,10 +127,19 @@ def run(r):
             continue
         if s in ("F", "C"):
             name, pat = c["name"], c["pattern"]
+            cls_override = None
+            if "#" in name:      # a row that checks a variant of a modelled filter against a class only
+                name, cls_override = name.split("#")
+                if cls_override not in ("select", "normal", "forward", "pieces"):
+                    cls_override = LOCAL_CLASS.get(c["name"], cls_override)
             seen_names.add(name)
-            cls = classes.get(name, "unclassified")
+            cls = cls_override or classes.get(name, "unclassified")
             key = f"{s}:{c['expr']}:{pat}:{c['dm']}:{','.join(c['args'])}"
             r.hist["filter"][name] += 1
+            if rf[0] in ("ERR:UnknownFilter", "ERR:UnknownFunction", "ERR:UnknownMethod"):
+                not_registered.add(name)
+                r.hist["not_registered"][name] += 1
+                continue
             if rf[0] != "OK":
                 r.count(key, False)
                 r.hist["filter_errors"][name + ":" + rf[0]] += 1
@@ -144,11 +164,23 @@ def run(r):
                 bad = [t for sf, t in leaves if sf and t not in in_safe]
                 if bad:
                     r.oracle_failure(cj, f"class forward violated: `{c['expr']}` ({pat}) created Safe string {bad[0]!r}", site)
+            elif cls == "select":
+                in_all = {(sf, t) for a in c["args"] for (sf, t) in parse_enc(a) + arg_key_leaves(a)}
+                bad = [(sf, t) for sf, t in leaves if (sf, t) not in in_all]
+                if bad:
+                    r.oracle_failure(cj, f"class select violated: `{c['expr']}` ({pat}) returned string {bad[0][1]!r} "
+                                         f"(safe={bad[0][0]}) that is no argument leaf with that bit", site)
+            elif cls == "pieces":
+                bad = [t for sf, t in leaves if sf and not any(t in u for u in in_safe)]
+                if bad:
+                    r.oracle_failure(cj, f"class pieces violated: `{c['expr']}` ({pat}) created Safe string {bad[0]!r}", site)
+            elif cls == "markup":
+                pass
             elif cls == "normal":
                 bad = [t for sf, t in leaves if sf]
                 if bad:
                     r.oracle_failure(cj, f"class normal violated: `{c['expr']}` ({pat}) returned Safe string {bad[0]!r}", site)
-            else:
+            elif not no_model:
                 r.broken.append(f"stream C case for `{name}` has class {cls} but no exact model")
             if len(r.samples) < 4 and i % 500 == 7:
                 r.sample({"filter_call": c["expr"], "args": c["args"], "engine": rf[1]})
@@ -216,9 +248,9 @@ def run(r):
                 r.oracle_failure(cj, f"{c['name']} maps a non-metacharacter to a metacharacter (code points {rf[1]}) or "
                                      f"drops the safe bit ({rf[2]} chunks)", f"filter:{c['name']}:unicode")
     # ---- coverage of the class table by real calls
-    for n in all_names:
+    for n in ([] if no_model else all_names):
         cls = classes.get(n, "")
-        if cls.startswith("unbuilt") or cls == "unclassified":
+        if cls.startswith("unbuilt") or cls == "unclassified" or (n in not_registered and ok_by_name[n] == 0):
             continue
         if n not in seen_names:
             r.broken.append(f"no stream F/C case exercises `{n}` (class {cls})")
